@@ -25,7 +25,7 @@ ANCHORS = ["runlengtharray.py::RunLength2dArray.from_array", "runlengtharray.py:
 OPS = ["decode", "meta", "rows", "elem", "col_int", "col_slice", "red_row", "red_col", "ravel", "concat", "npfunc", "unary", "scalar", "colvec", "intervals"]
 FLOOR_TAGS = ["op:" + o for o in OPS] + ["variant:2d", "variant:ragged", "variant:ragged_from_matrix", "rows:int", "rows:slice", "rows:list", "rows:mask",
                                          "cs:pos", "cs:neg", "side:L", "side:R", "red:argmax", "red:mean", "col:sum", "col:mean", "col:col_counts", "col:any", "j:neg",
-                                         "kind:b", "kind:i", "kind:u", "kind:f", "order:F", "order:T", "source:lazyrows", "source:lazychain", "via:intervals", "via:plus1", "concat:mixed-dtypes", "scalar:0-d-array", "scalar:numpy-typed"]
+                                         "kind:b", "kind:i", "kind:u", "kind:f", "order:F", "order:T", "source:lazyrows", "source:lazychain", "via:intervals", "via:plus1", "concat:mixed-dtypes", "scalar:0-d-array", "scalar:numpy-typed", "axis:-2"]
 FLOOR_MONITORS = ["c17:compare", "inv:rla"]
 FP_STRICT = True       # a floating-point event inside the library that the dense computation does not have is a violation (shard.FpMonitor)
 N_RANDOM = {"quick": 20000, "thorough": 300000}
@@ -211,7 +211,10 @@ def run(case):
             a = attempt(lambda: to_rows(rlx.col_counts()))
         else:
             o = ("1d", [getattr(np, name)(np.array(c_, dtype=dt)).tolist() for c_ in cols])
-            a = attempt(lambda: to_rows(getattr(rlx, name)(axis=0)))
+            ax = 0 if (len(case["rows"][0]) + n) % 2 == 0 else -2          # the column axis under either of its names
+            if ax == -2:
+                tags.append("axis:-2")
+            a = attempt(lambda: to_rows(getattr(rlx, name)(axis=ax)))
         what = "%s over columns" % name
         rtol = 1e-9
     elif op == "ravel":
